@@ -173,17 +173,45 @@ func opNames(f *sfnt.Font) []any {
 
 func okLayout(f *sfnt.Font) bool { return f.CMapTable != nil }
 
+// layoutLangs: the language argument of NewLayouter over the script families (Latin, Arabic-script
+// languages, Hebrew, Indic, CJK, Cyrillic, Greek, Thai, undetermined, a script subtag that
+// contradicts the language); every layouter is made with nil feature maps, i.e. with the
+// package-level defaults gtab.GsubDefaultFeatures / GposDefaultFeatures the API hands out (they are
+// part of the fingerprinted location pkg), and once with maps of the caller's own.
+var layoutLangs = []language.Tag{
+	language.English, language.Arabic, language.MustParse("ur"), language.MustParse("fa-Arab"),
+	language.Hebrew, language.Hindi, language.MustParse("zh-Hant"), language.Japanese, language.Russian,
+	language.Greek, language.Thai, language.Turkish, language.Und, language.MustParse("ar-Latn"),
+	language.MustParse("en-Arab"),
+}
+
 func opLayout(f *sfnt.Font) []any {
-	l, err := f.NewLayouter(language.English, nil, nil)
-	if err != nil {
-		return []any{errStr(err)}
-	}
 	var res []any
-	for _, t := range layoutTexts {
-		seq := l.Layout(t)
-		res = append(res, append([]glyph.Info(nil), seq...)) // the slice is owned by the layouter
+	for i, lang := range layoutLangs {
+		l, err := f.NewLayouter(lang, nil, nil)
+		if err != nil {
+			return append(res, errStr(err))
+		}
+		texts := layoutTexts
+		if i > 0 {
+			texts = []string{layoutTexts[0], layoutTexts[4], "\u0628\u0633\u0645 \u05e9\u05dc\u05d5\u05dd"}
+		}
+		for _, t := range texts {
+			seq := l.Layout(t)
+			res = append(res, append([]glyph.Info(nil), seq...)) // the slice is owned by the layouter
+		}
 	}
-	return res
+	// the caller's own feature maps
+	own1 := map[string]bool{"liga": true, "calt": true, "smcp": true}
+	own2 := map[string]bool{"kern": true}
+	for _, lang := range []language.Tag{language.English, language.Arabic} {
+		l, err := f.NewLayouter(lang, own1, own2)
+		if err != nil {
+			return append(res, errStr(err))
+		}
+		res = append(res, append([]glyph.Info(nil), l.Layout(layoutTexts[4])...))
+	}
+	return append(res, len(own1), len(own2))
 }
 
 func okGsubApply(f *sfnt.Font) bool { return f.Gsub != nil }
